@@ -7,7 +7,7 @@ From stdpp Require Import gmap list sorting.
 From Coq Require Import NArith ZArith Lia.
 From VFS Require Import Core.Types Core.Prog Core.Calls Spec.Tree Base.MemFS Base.Handles Base.PhysFS Base.Embedded Base.Store
   Layer.VfsPath Proofs.ProgProofs Proofs.MemProofs Proofs.MemCalls Proofs.MemPublic Proofs.ConcProofs Proofs.Composite
-  Proofs.WalkProofs Proofs.CopyFile Proofs.SortNames Proofs.CopyDir.
+  Proofs.WalkProofs Proofs.RemoveAll Proofs.CopyFile Proofs.SortNames Proofs.CopyDir.
 
 Section CopyDirSame.
   Variables (lg : list (nat * fscall)) (ft : option (nat * nat)).
@@ -308,6 +308,84 @@ Proof.
     + unfold si, s0i. rewrite lookup_insert_ne by congruence. reflexivity.
     + intros y Hy ->. apply Hnb. apply below_tr. rewrite Forall_forall in Hb. now apply Hb.
   - intros q Hq Hsome. destruct (decide (q ∈ map (tr p p') done')) as [Hin|Hnin].
+    + apply elem_of_list_fmap in Hin as (y & -> & Hy). exists y. rewrite Hd' in Hy. apply elem_of_desc in Hy as [Hy1 Hy2]. auto.
+    + exfalso. assert (E : absf <$> (sc' !! q) = None).
+      { rewrite Hout.
+        - unfold si, s0i. rewrite lookup_insert_ne.
+          + rewrite (below_p'_absent s Hwf p' Hfree q Hq). reflexivity.
+          + intros E. destruct Hq as [_ Hl]. rewrite E in Hl. lia.
+        - intros y Hy ->. apply Hnin. apply elem_of_list_fmap. eauto. }
+      destruct Hsome as [z Hz]. rewrite Hz in E. discriminate.
+Qed.
+
+(** ** move_dir within one MemoryFS instance: the copy, then remove_dir_all of the source *)
+Theorem move_dir_same (lg : list (nat * fscall)) (ft : option (nat * nat)) (s : mstate) (hs : list hstate)
+    (p p' : path) (fuel : nat) :
+  wf s -> p <> [] -> is_dir s p ->
+  p' <> [] -> is_dir s (removelast p') -> s !! p' = None -> ~ below p p' ->
+  length (desc s p) < fuel -> (forall k, k ∈ desc s p -> length k < length p + fuel) ->
+  exists s' hs',
+    run bhandler (vp_move_dir fuel mv p mv p') (mstore s hs lg ft) = (mstore s' hs' lg ft, Ok tt) /\
+    wf s' /\ is_dir s' p' /\
+    (forall y, is_Some (s !! y) -> below p y -> absf <$> (s' !! tr p p' y) = absf <$> (s !! y)) /\
+    (forall q, under p q -> s' !! q = None) /\
+    (forall q, q <> p' -> ~ below p' q -> ~ under p q -> absf <$> (s' !! q) = absf <$> (s !! q)) /\
+    (forall q, below p' q -> is_Some (s' !! q) -> exists y, is_Some (s !! y) /\ below p y /\ q = tr p p' y).
+Proof.
+  intros Hwf Hpne Hpd Hne Hpar Hfree Hnotin Hfuel Hdepth.
+  set (si := s0i s p').
+  assert (Hwfi : wf si).
+  { destruct Hwf as [Hr Hpc]. split; [apply root_dir_insert_ne; auto|]. apply pc_insert_dir; auto. }
+  assert (Hcop : copied s p p' [] si).
+  { split; [exact Hwfi|]. split; [intros y Hy; inversion Hy|reflexivity]. }
+  unfold vp_move_dir, relabel, labelled, bind_res. rewrite !run_bind, (call_exists hs lg ft s p'), Hfree.
+  rewrite bool_decide_eq_false_2 by (intros [? ?]; discriminate).
+  unfold fast_path. cbn [v_id mv Nat.eqb].
+  assert (Hns : run bhandler (v_impl mv (CMoveDir p p')) (mstore s hs lg ft) = (mstore s hs lg ft, fail ENotSupported)) by reflexivity.
+  rewrite run_bind, Hns. unfold fail, err_of. cbn [e_kind].
+  unfold bind_res. rewrite !run_bind, (create_dir_same lg ft s hs p' Hne Hpar Hfree). fold (s0i s p'). fold si.
+  unfold vp_walk_dir, bind_res. rewrite !run_bind, call_read_dir.
+  destruct (region_dir s Hwf p p' Hpd Hne Hfree Hpar Hnotin [] si p (Forall_nil_2 _) Hcop (or_introl eq_refl) Hpd) as (g & Hg & Hgt).
+  rewrite Hg, Hgt. cbn [run].
+  rewrite (region_children s Hwf p p' Hpd Hne Hfree Hpar Hnotin [] si p (Forall_nil_2 _) Hcop (or_introl eq_refl)).
+  assert (Hinv : inv s p [] (kids s p) []).
+  { split; [constructor|]. split; [|split; [|constructor]].
+    - apply Forall_forall. intros k Hk. apply elem_of_kids in Hk as (n & _ & Hs). exact Hs.
+    - apply Forall_forall. intros k Hk. apply elem_of_kids in Hk as (n & -> & _). left. now rewrite removelast_last. }
+  assert (Hrest : rest s (kids s p) [] ≡ₚ desc s p).
+  { unfold rest. cbn [fdesc]. rewrite app_nil_r. symmetry. apply (desc_unfold s Hwf). }
+  destruct (copy_loop_same lg ft s Hwf p p' Hpd Hne Hfree Hpar Hnotin (length (desc s p)) (kids s p) [] [] 0%N fuel si hs)
+    as (done' & sc' & hs' & Hrun & Hd' & Hc'); [now rewrite Hrest|exact Hfuel|exact Hinv|exact Hrest|exact Hcop|].
+  unfold kids in Hrun. rewrite run_bind, Hrun. cbn [run].
+  assert (Hb : Forall (below p) done').
+  { apply Forall_forall. intros y Hy. rewrite Hd' in Hy. now apply elem_of_desc in Hy. }
+  pose proof (copied_p'_dir s p p' done' sc' Hb Hc') as Hp'd.
+  pose proof (region_dir s Hwf p p' Hpd Hne Hfree Hpar Hnotin done' sc' p Hb Hc' (or_introl eq_refl) Hpd) as Hpd'.
+  assert (Hreg : forall q, under p q -> absf <$> (sc' !! q) = absf <$> (s !! q)).
+  { intros q Hq. apply (region_lookup s Hwf p p' Hpd Hne Hfree Hpar Hnotin done' sc' q Hb Hc' Hq). }
+  assert (Hdepth' : forall k, k ∈ desc sc' p -> length k < length p + fuel).
+  { intros k Hk. apply Hdepth. apply elem_of_desc in Hk as [Hks Hkb]. apply elem_of_desc. split; [|exact Hkb].
+    pose proof (Hreg k (or_intror Hkb)) as E. destruct Hks as [z Hz]. rewrite Hz in E. destruct (s !! k); [eauto|discriminate]. }
+  destruct (remove_dir_all_exact hs' lg ft fuel sc' p (proj1 Hc') Hpne Hpd' Hdepth' ltac:(lia)) as (s' & Hrm & Hpr & Hwf').
+  rewrite Hrm. cbn [run map_err].
+  exists s', hs'. split; [reflexivity|]. split; [exact Hwf'|].
+  destruct Hc' as (Hwfc & Hdone & Hout).
+  assert (Hnu : forall q, (q = p' \/ below p' q) -> ~ Exists (fun c => under c q) [p]).
+  { intros q Hq Hex. apply Exists_cons in Hex as [Hu|Hex]; [|inversion Hex].
+    eapply (not_both s Hwf p p' Hpd Hne Hfree Hpar Hnotin q); [exact Hu|exact Hq]. }
+  split; [|split; [|split; [|split]]].
+  - destruct Hp'd as (d & Hd & Hdt). exists d. split; [|exact Hdt]. rewrite (Hpr p'). rewrite decide_False by (apply Hnu; now left). exact Hd.
+  - intros y Hy Hby. assert (Hin : y ∈ done') by (rewrite Hd'; apply elem_of_desc; auto).
+    destruct (Hdone y Hin) as (f & g' & Hf & Hg' & Hab).
+    rewrite (Hpr (tr p p' y)). rewrite decide_False by (apply Hnu; right; apply below_tr, Hby).
+    rewrite Hf, Hg'. cbn. now rewrite Hab.
+  - intros q Hq. rewrite (Hpr q). rewrite decide_True by (constructor; exact Hq). reflexivity.
+  - intros q Hq Hnb Hnu'. rewrite (Hpr q). rewrite decide_False by (intros Hex; apply Exists_cons in Hex as [Hu|Hex]; [contradiction|inversion Hex]).
+    rewrite Hout.
+    + unfold si, s0i. rewrite lookup_insert_ne by congruence. reflexivity.
+    + intros y Hy ->. apply Hnb. apply below_tr. rewrite Forall_forall in Hb. now apply Hb.
+  - intros q Hq Hsome. rewrite (Hpr q) in Hsome. rewrite decide_False in Hsome by (apply Hnu; now right).
+    destruct (decide (q ∈ map (tr p p') done')) as [Hin|Hnin].
     + apply elem_of_list_fmap in Hin as (y & -> & Hy). exists y. rewrite Hd' in Hy. apply elem_of_desc in Hy as [Hy1 Hy2]. auto.
     + exfalso. assert (E : absf <$> (sc' !! q) = None).
       { rewrite Hout.
